@@ -7,7 +7,8 @@ i = s.index('### 10.4 Per property')
 body = '### 10.4 Per property\n\nOne entry per registered check: theorems of `Properties_<id>.v` (all `exact`-closed, `Print Assumptions`\nunder each), what is only validated by correspondence or modelled, defects, and which of the builder\'s own mutants\n(`mutants/<id>/`) the check catches. Independent seeded changes are in 10.5.\n\n'
 for f in sorted(glob.glob('reports/C??.md')):
     body += open(f).read().rstrip() + '\n\n'
-if os.path.exists('reports/section_10_5.md'):
-    body += open('reports/section_10_5.md').read().rstrip() + '\n'
+for extra in ('reports/section_10_5.md', 'reports/section_10_6.md'):
+    if os.path.exists(extra):
+        body += open(extra).read().rstrip() + '\n\n'
 open('DESIGN.md', 'w').write(s[:i] + body)
 print('DESIGN.md 10.4 rewritten from', len(glob.glob('reports/C??.md')), 'reports')
